@@ -325,7 +325,12 @@ func runShards(id, tier string, budget, n int, total *engine.Report) error {
 			cmd.Stderr = &stderr
 			outs[i], errs[i] = cmd.Output()
 			if errs[i] != nil {
-				errs[i] = fmt.Errorf("shard %d: %v: %s", i, errs[i], tailStr(stderr.String(), 2000))
+				se := stderr.String()
+				if strings.Contains(se, "fatal error") {
+					errs[i] = fmt.Errorf("shard %d: %v: %s", i, errs[i], firstLines(se, "fatal error", 40))
+				} else {
+					errs[i] = fmt.Errorf("shard %d: %v: %s", i, errs[i], tailStr(se, 2000))
+				}
 			}
 		}(i)
 	}
@@ -333,6 +338,25 @@ func runShards(id, tier string, budget, n int, total *engine.Report) error {
 	states, nts := map[uint64]struct{}{}, map[uint64]struct{}{}
 	perCfg := map[string]bool{}
 	for i := 0; i < n; i++ {
+		if errs[i] != nil && strings.Contains(errs[i].Error(), "fatal error") && strings.Contains(errs[i].Error(), "mlange-42/ark/ecs") {
+			// the implementation killed the process (Go fatal error inside package ecs): find the history
+			tf := filepath.Join(root, ".work", fmt.Sprintf("trace_%s_%d", id, i))
+			cmd := exec.Command(self, id, "--tier", tier, "--budget", strconv.Itoa(budget), "--shard", fmt.Sprintf("%d/%d", i, n))
+			cmd.Env = append(os.Environ(), "GOMAXPROCS=1", "VERIF_TRACE_HIST="+tf)
+			cmd.Run()
+			var tr engine.TraceRecord
+			if b, err := os.ReadFile(tf); err == nil && json.Unmarshal(bytes.TrimSpace(b), &tr) == nil {
+				opk := ""
+				if len(tr.Hist) > 0 {
+					opk = tr.Hist[len(tr.Hist)-1].K.String()
+				}
+				total.Found = append(total.Found, engine.Found{Scenario: tr.Scenario, Cfg: tr.Cfg, Hist: tr.Hist, OpKind: opk,
+					V: drv.Violation{Kind: "crash", Step: len(tr.Hist), Msg: "the process was killed by a Go fatal error inside package ecs while executing this history: " + firstLines(errs[i].Error(), "fatal error", 14)}})
+				os.Remove(tf)
+				continue
+			}
+			return errs[i]
+		}
 		if errs[i] != nil {
 			return errs[i]
 		}
@@ -364,6 +388,19 @@ func runShards(id, tier string, budget, n int, total *engine.Report) error {
 	total.States += int64(len(states))
 	total.NonTrivial += int64(len(nts))
 	return nil
+}
+
+// firstLines returns up to n lines of s starting at the first line containing marker.
+func firstLines(s, marker string, n int) string {
+	i := strings.Index(s, marker)
+	if i < 0 {
+		return ""
+	}
+	lines := strings.Split(s[i:], "\n")
+	if len(lines) > n {
+		lines = lines[:n]
+	}
+	return strings.Join(lines, "\n")
 }
 
 func tailStr(s string, n int) string {
@@ -411,6 +448,16 @@ func reproduces(chk *props.Check, f *engine.Found) bool {
 			return chk.Confirm(f.Raw)
 		}
 		return true
+	}
+	if f.V.Kind == "crash" {
+		// must not be replayed in this process: run the replay in a child and expect it to die the same way
+		p := writeReplay(chk.ID, f)
+		self, _ := os.Executable()
+		cmd := exec.Command(self, chk.ID, "--replay", p)
+		var stderr bytes.Buffer
+		cmd.Stderr = &stderr
+		err := cmd.Run()
+		return err != nil && strings.Contains(stderr.String(), "fatal error")
 	}
 	_, v := engine.RunHistory(sc, f.Cfg, nil, f.Hist)
 	return v != nil && v.Kind == f.V.Kind
